@@ -69,6 +69,17 @@ def _carry(x, base):
     return Mod(ax, base) * s, Div(ax, base) * s
 
 
+def make_timedelta(interp, args, kwargs):
+    """datetime.timedelta as a purely relative delta (days, seconds, microseconds, minutes, hours, weeks)"""
+    names = ["days", "seconds", "microseconds", "milliseconds", "minutes", "hours", "weeks"]
+    vals = dict(zip(names, args))
+    vals.update(kwargs)
+    if "milliseconds" in vals:
+        raise Unsupported("timedelta(milliseconds=)")
+    kw = {k: v for k, v in vals.items() if k in ("days", "seconds", "microseconds", "minutes", "hours", "weeks")}
+    return make_relativedelta(interp, [], kw)
+
+
 def _months_rd(months):
     """relativedelta._set_months"""
     rd = RD()
